@@ -124,6 +124,8 @@ def fn_code_hash(fn: Callable, salt: str = None, environment: bytes = None) -> s
                         sorted([k, _stable_repr(v)] for (k, v) in kwdefaults.items()),
                     ]
                 )
+            if o is top_level_code and closure:
+                attr_values.append(["closure", closure])
             if salt:
                 sha256.update(salt.encode("utf-8"))
             sha256.update(json.dumps(attr_values, sort_keys=True).encode("utf-8"))
@@ -138,7 +140,18 @@ def fn_code_hash(fn: Callable, salt: str = None, environment: bytes = None) -> s
         memento_fn = fn  # type: MementoFunctionType
         fn = memento_fn.fn
     assert callable(fn), "Must provide a function to hash"
-    while hasattr(fn, "__wrapped__"):
+    # What the function, and every wrapper a decorator put around it, closes over is part of
+    # what it does, like its default values: the argument of a factory function or of a
+    # decorator (an empty cell has no contents yet)
+    closure = []
+    while True:
+        for cell in getattr(fn, "__closure__", None) or ():
+            try:
+                closure.append(_stable_repr(cell.cell_contents))
+            except ValueError:
+                closure.append("<empty cell>")
+        if not hasattr(fn, "__wrapped__"):
+            break
         fn = fn.__wrapped__
     if hasattr(fn, "__code__"):
         code = getattr(fn, "__code__")  # type: code
